@@ -89,6 +89,10 @@ def variant_name(rng, n):
     return n.upper() if r < 0.3 else n.capitalize() if r < 0.5 else n
 
 
+MAP_KINDS = ["dict", "dict", "proxy", "userdict", "chain"]
+MAPS = [0]
+
+
 def judge(ctx, p, rng):
     import ZConfig
     res = ctx.res
@@ -100,6 +104,49 @@ def judge(ctx, p, rng):
     entries = exp[2]
     config, handler, _ = obs[3]
     case = p.case()
+    if res.evaluations % 7 == 3:
+        # the application keeps the handler object only (and pieces of the
+        # configuration at most): the entries are the handler's own
+        import weakref
+        wr = weakref.ref(config)
+        keep = [config]
+        p.obs = obs[:3] + ((None, handler, None),)
+        del config, obs, _
+        keep.pop()
+        import gc
+        gc.collect()
+        res.count("handler_used_after_configuration_was_dropped")
+        if wr() is None:
+            res.hook("configuration_really_collected")
+        else:
+            res.sample("still-alive", {"referrers": [
+                type(x).__name__ + ":" + repr(x)[:80]
+                for x in gc.get_referrers(wr())][:6]}, 2)
+        try:
+            n = len(handler)
+        except Exception as e:  # noqa
+            n = "raised %s" % type(e).__name__
+        calls = []
+        names_ = []
+        for h, _v in entries:
+            if h not in names_:
+                names_.append(h)
+        try:
+            handler(dict((n_, (lambda v, key=n_: calls.append((key, v))))
+                         for n_ in names_))
+            got = [(k, outcome.canon_value(v)) for k, v in calls]
+        except Exception as e:  # noqa
+            got = "raised %s: %s" % (type(e).__name__, e)
+        want = [(h, v) for h, v in entries]
+        if n != len(entries) or got != want:
+            res.violate("handler-depends-on-configuration-being-alive",
+                        case, [len(entries), [list(x) for x in want][:6]],
+                        [n, got if isinstance(got, str)
+                         else [list(x) for x in got][:6]],
+                        detail="configuration object dropped before the "
+                        "handler was used; text=%r" % p.text,
+                        vsig="dropped|%s" % (n == len(entries)))
+        return
     res.count("accepted")
     names = []
     for h, _v in entries:
@@ -133,6 +180,20 @@ def judge(ctx, p, rng):
                 else:
                     mapping[supplied] = (lambda v, key=key:
                                          calls.append((key, v)))
+        # the map is a name-to-callable mapping: not necessarily a dict
+        MAPS[0] += 1
+        mk = MAP_KINDS[MAPS[0] % len(MAP_KINDS)]
+        if mk == "proxy":
+            import types
+            mapping = types.MappingProxyType(mapping)
+        elif mk == "userdict":
+            import collections
+            mapping = collections.UserDict(mapping)
+        elif mk == "chain":
+            import collections
+            mapping = collections.ChainMap({}, mapping)
+        if mk != "dict":
+            res.count("map_" + mk)
         try:
             handler(mapping)
         except ZConfig.ConfigurationError as e:
